@@ -674,8 +674,10 @@ def check(ctx):
         k = len(cases)
         if not thorough:
             cases += [gen_case(ctx.rng, k + i, n=n, compile_=True) for i, n in enumerate([3, 9, 10, 12, 17, 25][:n_comp])]
+            k = len(cases)                                       # values that are not binary32 numbers (regression stream for D65)
+            cases += [gen_case(ctx.rng, k, n=4, compile_=True, inexact=True)]
         else:
-            cases += [gen_case(ctx.rng, k + i, compile_=True, inexact=True) for i in range(6)]            # guard-violating stream
+            cases += [gen_case(ctx.rng, k + i, compile_=True, inexact=True) for i in range(6)]            # values that are not binary32 numbers (was the guard-violating stream before D65)
     e2_cases, bad_tr, bad_cf, dup = ([], [], [], []) if ctx.replay else e2_streams(ctx)
     if bad_cf:   # the slot function itself left the closed form: the smallest parameter count is the replay, and the hint for shrinking models
         c, o = min(bad_cf, key=lambda co: co[0]["n"])
